@@ -46,7 +46,7 @@ PH_stop == 10
 PH_patch == 11
 EmitPhases == {PH_body, PH_close, PH_collapse, PH_pad}
 
-CntInit == [T |-> -1, body |-> 0, tail |-> 0, ops |-> 0, stop |-> 0, frameAt |-> 0, skip |-> FALSE]
+CntInit == [T |-> -1, body |-> 0, tail |-> 0, ops |-> 0, stop |-> 0, frameAt |-> 0, skip |-> FALSE, pieces |-> 0]
 GsInit == [stk |-> <<>>, memo |-> <<>>, m |-> 0]
 StInit == [stk |-> <<>>, memo |-> <<>>, cls |-> "", why |-> "", kept |-> 0, key |-> -1]
 LexInit == [op |-> -1, known |-> FALSE, nxt |-> 0, ok |-> FALSE, why |-> "", arg |-> -1]
@@ -105,17 +105,20 @@ ValueClass(op) ==
 ---------------------------------------------------------------------------
 (* findings of one emitting event (body / close / collapse / pad / stop / proto) *)
 
-EmitFindings(r, k, e, c, bytes, lx, step, g2, isBody) ==
+EmitFindings(r, k, e, c, bytes, lx, step, g2, isBody, more) ==
     LET safe == Safe(c)
         spanOK == lx.known /\ lx.ok /\ lx.nxt = e.len + 1
-        judged == safe /\ ~broken /\ spanOK
+        judged == safe /\ ~broken /\ spanOK          \* last (normally only) opcode of the step
+        stepped == safe /\ ~broken /\ lx.known /\ lx.ok /\ (spanOK \/ more)
+        single == cnt.pieces = 0 /\ ~more
     IN
       (IF e.len <= pos THEN <<V(r, k, "C11", "step emitted no opcode")>> ELSE <<>>)
    \o (IF e.len > pos /\ ~lx.known THEN <<V(r, k, "C04", "unknown opcode byte")>> ELSE <<>>)
    \o (IF e.len > pos /\ lx.known /\ ~lx.ok THEN <<V(r, k, "C04", lx.why)>> ELSE <<>>)
-   \o (IF e.len > pos /\ lx.known /\ lx.ok /\ lx.nxt # e.len + 1
+   \o (IF e.len > pos /\ lx.known /\ lx.ok /\ lx.nxt > e.len + 1
        THEN <<V(r, k, "C11", "step does not span exactly one opcode"),
-              V(r, k, "C04", "emitted bytes do not decode to exactly one opcode")>> ELSE <<>>)
+              V(r, k, "C04", "opcode argument extends beyond the bytes emitted by the step")>> ELSE <<>>)
+   \o (IF more THEN <<V(r, k, "C11", "step emitted more than one opcode")>> ELSE <<>>)
    \o (IF lx.known /\ lx.op \in ExtOps /\ c.ext = 0 THEN <<V(r, k, "C10", "EXT opcode although not enabled")>> ELSE <<>>)
    \o (IF lx.known /\ lx.op \in BufOps /\ c.buf = 0 THEN <<V(r, k, "C10", "buffer opcode although not enabled")>> ELSE <<>>)
    \o (IF lx.known /\ lx.op = B_FRAME /\ e.ph # PH_reserve THEN <<V(r, k, "C06", "FRAME outside the header")>> ELSE <<>>)
@@ -123,17 +126,17 @@ EmitFindings(r, k, e, c, bytes, lx, step, g2, isBody) ==
    \o (IF safe /\ lx.known /\ lx.op = B_PROTO /\ e.ph # PH_proto THEN <<V(r, k, "C05", "PROTO outside the header")>> ELSE <<>>)
    \o (IF safe /\ c.P = 0 /\ \E j \in (pos + 1)..e.len : bytes[j] > 127
        THEN <<V(r, k, "C05", "protocol 0 output is not 7-bit ASCII")>> ELSE <<>>)
-   \o (IF judged /\ e.op >= 0 /\ lx.op \notin Family(e.op)
+   \o (IF judged /\ single /\ e.op >= 0 /\ lx.op \notin Family(e.op)
        THEN <<V(r, k, "C17", "claimed opcode differs from the emitted bytes")>> ELSE <<>>)
-   \o (IF judged /\ step.cls # "" THEN <<V(r, k, PropertyOf(step.cls), step.why)>> ELSE <<>>)
+   \o (IF stepped /\ step.cls # "" THEN <<V(r, k, PropertyOf(step.cls), step.why)>> ELSE <<>>)
    \o (IF judged /\ e.ph # PH_stop /\ step.cls \in {"", "kind"} /\ ~MirrorFrom(g2, step, Min(e.kept, step.kept))
        THEN <<V(r, k, "C17", "simulated stack differs from the reference stack")>> ELSE <<>>)
-   \o (IF judged /\ step.cls \in {"", "kind"}
+   \o (IF judged /\ single /\ step.cls \in {"", "kind"}
           /\ {e.memo[j][1] : j \in {x \in 1..Len(e.memo) : e.memo[x][2] # 255}} # (IF step.key = -1 THEN {} ELSE {step.key})
        THEN <<V(r, k, "C17", "simulated memo differs from the reference memo")>> ELSE <<>>)
    \o (IF c.rate = 0 /\ (e.mu # <<>> \/ e.rw # <<>> \/ e.rwn = 1)
        THEN <<V(r, k, "C15", "value mutated or bytes rewritten at rate 0")>> ELSE <<>>)
-   \o (IF isBody /\ c.rate = 2 /\ e.op >= 0 /\ ValueClass(e.op) # 0
+   \o (IF isBody /\ ~more /\ c.rate = 2 /\ e.op >= 0 /\ ValueClass(e.op) # 0
           /\ FirstApplicable(c.muts, ValueClass(e.op)) # {}
           /\ ~(0 \in FirstApplicable(c.muts, ValueClass(e.op)) /\ ~\E j \in 1..Len(e.mu) : e.mu[j][1] = ValueClass(e.op))
           /\ ~\E j \in 1..Len(e.mu) : e.mu[j][1] = ValueClass(e.op) /\ (e.mu[j][2] + 1) \in FirstApplicable(c.muts, ValueClass(e.op))
@@ -160,12 +163,15 @@ StepEvent ==
            bytes == Rec[r].bytes
            emitting == e.ph \in EmitPhases \cup {PH_stop} \/ (e.ph \in {PH_proto, PH_reserve} /\ e.len > pos)
            dirty == e.len # 0 \/ e.push # <<>> \/ e.ml # 0 \/ e.pe = 1
+           \* the step's bytes hold a further opcode after this one (an emission without its own
+           \* hook event): consume one opcode per TLC step and stay on the same event
+           more == emitting /\ ~cnt.skip /\ e.kept <= Len(gs.stk) /\ lexd'.known /\ lexd'.ok /\ lexd'.nxt <= e.len
        IN
-       /\ ev' = k
-       /\ total' = total + 1
-       /\ pos' = e.len
-       /\ gs' = GsApply(gs, e)
        /\ lexd' = IF emitting /\ ~cnt.skip THEN LexAt(bytes, pos + 1) ELSE LexInit
+       /\ ev' = IF more THEN ev ELSE k
+       /\ total' = IF more THEN total ELSE total + 1
+       /\ pos' = IF more THEN lexd'.nxt - 1 ELSE e.len
+       /\ gs' = IF more THEN gs ELSE GsApply(gs, e)
        /\ st' = IF e.ph = PH_begin THEN StInit
                 ELSE IF emitting /\ ~cnt.skip /\ ~broken /\ lexd'.known THEN RefStep(st, lexd'.op, lexd'.arg)
                 ELSE Quiet(st)
@@ -190,12 +196,13 @@ StepEvent ==
                      \o (IF e.ph = PH_fix /\ Safe(c) /\ ~broken /\ ~MirrorFrom(gs', st, Min(e.kept, Len(st.stk)))
                          THEN <<V(r, k, "C17", "simulated stack differs from the reference stack")>> ELSE <<>>)
           ELSE
-             /\ cnt' = [cnt EXCEPT !.body = @ + (IF e.ph = PH_body THEN 1 ELSE 0),
-                                   !.tail = @ + (IF e.ph \in {PH_close, PH_collapse, PH_pad} THEN 1 ELSE 0),
+             /\ cnt' = [cnt EXCEPT !.body = @ + (IF e.ph = PH_body /\ ~more THEN 1 ELSE 0),
+                                   !.tail = @ + (IF e.ph \in {PH_close, PH_collapse, PH_pad} /\ ~more THEN 1 ELSE 0),
+                                   !.pieces = IF more THEN @ + 1 ELSE 0,
                                    !.ops = @ + 1,
                                    !.stop = @ + (IF lexd'.known /\ lexd'.op = B_STOP THEN 1 ELSE 0),
                                    !.frameAt = IF e.ph = PH_reserve THEN pos + 1 ELSE @]
-             /\ msgs' = EmitFindings(r, k, e, c, bytes, lexd', st', gs', e.ph = PH_body)
+             /\ msgs' = EmitFindings(r, k, e, c, bytes, lexd', st', gs', e.ph = PH_body, more)
                      \o (IF e.ph = PH_proto /\ Safe(c) /\ (c.P < 2 \/ lexd'.op # B_PROTO \/ lexd'.arg # c.P)
                          THEN <<V(r, k, "C05", "header is not PROTO <P>")>> ELSE <<>>)
                      \o (IF e.ph = PH_reserve /\ (c.P < 4 \/ lexd'.op # B_FRAME \/ e.len # pos + 9)
@@ -203,8 +210,8 @@ StepEvent ==
                      \o (IF e.ph = PH_reserve /\ lexd'.op = B_FRAME /\ lexd'.arg # Len(bytes) - (pos + 9)
                          THEN <<V(r, k, "C06", "FRAME length differs from the number of bytes that follow")>> ELSE <<>>)
                      \o (IF e.ph = PH_stop /\ lexd'.op # B_STOP THEN <<V(r, k, "C04", "final opcode is not STOP")>> ELSE <<>>)
-                     \o (IF e.ph \in EmitPhases THEN DriftFindings(r, k, e, c, gs') ELSE <<>>)
-             /\ broken' = (broken \/ ~(lexd'.known /\ lexd'.ok /\ lexd'.nxt = e.len + 1) \/ st'.cls # ""
+                     \o (IF e.ph \in EmitPhases /\ cnt.pieces = 0 /\ ~more THEN DriftFindings(r, k, e, c, gs') ELSE <<>>)
+             /\ broken' = (broken \/ ~(lexd'.known /\ lexd'.ok /\ (lexd'.nxt = e.len + 1 \/ more)) \/ st'.cls # ""
                            \/ \E j \in 1..Len(msgs') : msgs'[j][1] = "V" /\ msgs'[j][4] = "C17")
     /\ UNCHANGED run
 
